@@ -19,6 +19,7 @@ import (
 	"net"
 	"time"
 
+	"github.com/fatedier/golib/errors"
 	"github.com/pion/stun/v2"
 )
 
@@ -102,9 +103,15 @@ func (c *discoverConn) readLoop() {
 		}
 		buf = buf[:n]
 
-		c.messageChan <- &Message{
+		m := &Message{
 			Body: buf,
 			Addr: addr.String(),
+		}
+		// messageChan may be closed by Close while a packet is in flight
+		if err := errors.PanicToError(func() {
+			c.messageChan <- m
+		}); err != nil {
+			return
 		}
 	}
 }
